@@ -3,6 +3,8 @@
 package gossip
 
 import (
+	"fmt"
+
 	"github.com/nuts-foundation/nuts-node/crypto/hash"
 	"github.com/nuts-foundation/nuts-node/network/transport"
 )
@@ -36,4 +38,18 @@ func VerifQueue(m Manager, peer transport.Peer) (queue []hash.SHA256Hash, log []
 		log = pq.log.Values()
 	})
 	return queue, log, xor, clock, true
+}
+
+// VerifEntry identifies the queue object the manager holds for the peer ("" = none). The ticker goroutine of a queue is started
+// when PeerConnected creates the object and stopped (for good) when PeerDisconnected finds it: the simulator, which runs the
+// ticks itself, uses the identity to tick only queues whose ticker goroutine is alive.
+func VerifEntry(m Manager, peer transport.Peer) string {
+	mm := m.(*manager)
+	mm.mutex.RLock()
+	defer mm.mutex.RUnlock()
+	pq := mm.peers[peer.Key()]
+	if pq == nil {
+		return ""
+	}
+	return fmt.Sprintf("%p", pq)
 }
